@@ -289,6 +289,22 @@ func (w *slWorker) build() {
 		r := r
 		w.tab.Add(fmt.Sprintf("C%s.report(%s)", r.cid, r.name), func(n engine.Node) (engine.Node, []V) { return w.report(n.(*slNode), r.cid, r.addr, r.inf) })
 	}
+	if w.cfg.Variant == "ackloop" {
+		w.tab.Add("C0.legacy(vscmatured)", func(n engine.Node) (engine.Node, []V) {
+			// state inherited from an older version: a VSCMatured packet at the head of the pending queue
+			x := n.(*slNode)
+			if len(w.w.CA.K.GetPendingPackets(x.C["0"].Ctx)) != 0 {
+				return nil, nil
+			}
+			c := x.clone()
+			c.touchC("0")
+			s := c.C["0"]
+			w.w.CA.K.AppendPendingPacket(s.Ctx, ccv.VscMaturedPacket, &ccv.ConsumerPacketData_VscMaturedPacketData{
+				VscMaturedPacketData: &ccv.VSCMaturedPacketData{ValsetUpdateId: 1}})
+			c.C["0"] = s
+			return c, nil
+		})
+	}
 	if w.cfg.Variant == "full" {
 		for _, inf := range []stakingtypes.Infraction{stakingtypes.Infraction_INFRACTION_DOWNTIME, stakingtypes.Infraction_INFRACTION_DOUBLE_SIGN} {
 			inf := inf
@@ -470,17 +486,26 @@ func (w *slWorker) judgeSends(c *slNode, cid string, endTime time.Time, hasRec, 
 	case len(sent) > 0 && hasRec && !waiting && !endTime.After(sendTime.Add(delay)):
 		vs = append(vs, vf("C09", "retry-before-delay", "consumer %s re-sent at %s, bounced packet was sent at %s, retry delay %s", cid, endTime.Format("15:04:05"), sendTime.Format("15:04:05"), delay))
 	}
-	if len(sent) > 1 {
-		vs = append(vs, vf("C09", "more-than-one-packet", "consumer %s sent %d packets in one block although the first is a slash packet", cid, len(sent)))
+	// the packets sent are a prefix of the pending queue, in order, and nothing follows a slash packet
+	nSlash := 0
+	for i, q := range sent {
+		if nSlash > 0 {
+			vs = append(vs, vf("C09", "more-than-one-packet", "consumer %s sent %d packets in one block and packet %d follows a slash packet whose reply is outstanding", cid, len(sent), i))
+			break
+		}
+		if i >= len(pending) || !bytes.Equal(q.P.Data, pending[i].GetBytes()) {
+			vs = append(vs, vf("C09", "sent-not-head-of-queue", "consumer %s sent a packet that is not the head of its pending queue", cid))
+			break
+		}
+		if isSlashWire(q.P.Data) {
+			nSlash++
+		}
 	}
-	if len(sent) == 1 {
+	if nSlash > 0 {
 		if c.InFlight[cid] {
 			vs = append(vs, vf("C09", "duplicate-in-flight", "consumer %s sent a slash packet while an earlier one is still unacknowledged", cid))
 		}
 		c.InFlight[cid] = true
-		if len(pending) == 0 || !bytes.Equal(sent[0].P.Data, pending[0].GetBytes()) {
-			vs = append(vs, vf("C09", "sent-not-head-of-queue", "consumer %s sent a packet that is not the head of its pending queue", cid))
-		}
 		if hasRec {
 			w.stats.Count("slash-retried")
 		} else {
@@ -551,6 +576,14 @@ func (w *slWorker) resolveRef(ctx sdk.Context, cid string, addr []byte) int {
 	return -1
 }
 
+// isSlashWire: does this consumer->provider packet carry slash packet data (as opposed to a legacy
+// VSCMatured packet, which consumers of this version no longer create but may still hold in their
+// pending queue after an upgrade or a genesis restart).
+func isSlashWire(bz []byte) bool {
+	cp, err := ccvprovider.UnmarshalConsumerPacketData(bz)
+	return err == nil && cp.GetSlashPacketData() != nil
+}
+
 // deliverSlash: relay the next consumer packet to the provider and judge the provider's decision.
 func (w *slWorker) deliverSlash(x *slNode, cid string) (engine.Node, []V) {
 	if len(x.L[cid].C2P.Packets) == 0 {
@@ -562,8 +595,30 @@ func (w *slWorker) deliverSlash(x *slNode, cid string) (engine.Node, []V) {
 	ctx := pre.Ctx
 	head := x.L[cid].C2P.Packets[0]
 	cp, err := ccvprovider.UnmarshalConsumerPacketData(head.P.Data)
-	if err != nil || cp.GetSlashPacketData() == nil {
+	if err != nil {
 		return nil, []V{vf("HARNESS", "undecodable-consumer-packet", "%v", err)}
+	}
+	if cp.GetSlashPacketData() == nil {
+		// a legacy VSCMatured packet: the provider ignores it, nobody is affected
+		var snaps [4]valSnap
+		for i := range p.Vals {
+			snaps[i] = w.snap(ctx, i)
+		}
+		got, res := w.w.DeliverC2P(c.XNode, cid)
+		if got == nil {
+			return nil, nil
+		}
+		if res.Panic != "" {
+			return nil, []V{vf("C19", "panic:provider-recv-vscmatured", "%s", res.Panic)}
+		}
+		var vs []V
+		for i := range p.Vals {
+			if !bytes.Equal(snaps[i].bz, w.snap(c.P.Ctx, i).bz) {
+				vs = append(vs, vf("C08", "punished-without-cause:vscmatured", "a VSCMatured packet from consumer %s changed validator v%d", cid, i))
+			}
+		}
+		w.stats.Count("vscmatured-delivered")
+		return c, vs
 	}
 	d := cp.GetSlashPacketData()
 	// ----- pre-state facts
@@ -885,6 +940,7 @@ func (w *slWorker) ack(x *slNode, cid string) (engine.Node, []V) {
 	c := x.clone()
 	k := w.w.CA.K
 	prePending := len(k.GetPendingPackets(x.C[cid].Ctx))
+	preRec, preHas := k.GetSlashRecord(x.C[cid].Ctx)
 	a, err, pan := w.w.AckC2P(c.XNode, cid)
 	if a == nil {
 		return nil, nil
@@ -895,11 +951,19 @@ func (w *slWorker) ack(x *slNode, cid string) (engine.Node, []V) {
 	if err != nil {
 		return nil, nil
 	}
-	c.InFlight[cid] = false
 	var vs []V
 	post := c.C[cid]
 	rec, has := k.GetSlashRecord(post.Ctx)
 	pend := len(k.GetPendingPackets(post.Ctx))
+	if !isSlashWire(a.P.Data) {
+		// the reply to a legacy VSCMatured packet says nothing about a slash packet that is in flight
+		w.stats.Count("ack-relayed:vscmatured")
+		if has != preHas || rec.WaitingOnReply != preRec.WaitingOnReply || !rec.SendTime.Equal(preRec.SendTime) || pend != prePending {
+			vs = append(vs, vf("C09", "foreign-ack-releases-slash-packet", "consumer %s got the reply to a VSCMatured packet: slash record present %v -> %v (waiting %v -> %v), pending %d -> %d; the slash packet in flight must neither be dropped nor released", cid, preHas, has, preRec.WaitingOnReply, rec.WaitingOnReply, prePending, pend))
+		}
+		return c, vs
+	}
+	c.InFlight[cid] = false
 	res := ackResult(a.Bytes)
 	switch {
 	case len(res) == 1 && res[0] == ccv.SlashPacketBouncedResult[0]:
